@@ -10,8 +10,6 @@ theorems relate the rendered header (`sigHead`/`sigTail`, tied to `FuncToString`
 namespace Convergen.Props.C08
 open Convergen
 
-def param (v : Var) : String := v.name ++ " " ++ v.fullType
-
 /-- documented parameter list: destination first (as a pointer) in arg style, then the source
 unless it is the receiver, then the additional arguments in order -/
 def specParams (f : Function) : List String :=
@@ -28,46 +26,42 @@ def specHead (f : Function) : String :=
   "func " ++ (if f.receiver != "" then "(" ++ f.receiver ++ " " ++ f.src.fullType ++ ") " else "") ++
   f.name ++ "(" ++ joinSep ", " (specParams f) ++ ") "
 
-theorem joinSep_cons_prefixed (x : String) (xs : List Var) :
-    joinSep ", " (x :: xs.map param) = x ++ concatMap (fun a => ", " ++ a.name ++ " " ++ a.fullType) xs := by
-  induction xs generalizing x with
-  | nil => simp [joinSep, concatMap]
-  | cons y ys ih => simp [joinSep, concatMap, ih, param, String.append_assoc]
+/-- **T8.1 (every shape).** The rendered signature head is the documented one: receiver first when
+there is one, then `Name(` and the parameters separated by `", "` — destination (arg style), source
+(unless receiver), additional arguments in order.  (`Bridge.funcToString_eq` + `Bridge.params_eq` tie
+`sigHead` to the separator logic of `FuncToString`; before the repair of DESIGN §5 #13 the shape
+"receiver, return style, additional arguments" rendered `Name(, arg0 T)`.) -/
+theorem header_eq_spec (f : Function) : sigHead f = specHead f := rfl
 
-/-- the only shape on which the rendered parameter list is not the documented one: a receiver
-(so the source is not a parameter), return style (so the destination is not one either) and at
-least one additional argument — the separator logic then emits `Name(, arg0 T)`. -/
-def strayComma (f : Function) : Bool :=
-  f.receiver != "" && f.dstVarStyle == .ret && !f.additionalArgs.isEmpty
-
-/-- **T8.1 (partial).** For every function shape outside `strayComma` the rendered signature head
-is the documented one. -/
-theorem header_eq_spec_partial (f : Function) (h : strayComma f = false) : sigHead f = specHead f := by
-  unfold sigHead specHead specParams Var.ptrLessFullType
-  unfold strayComma at h
-  by_cases hr : f.receiver = ""
-  · cases hs : f.dstVarStyle <;>
-      simp [hr, joinSep_cons_prefixed, String.append_assoc, param, joinSep]
-  · cases hs : f.dstVarStyle
-    · -- receiver, return style: no additional arguments by `h`
-      have hargs : f.additionalArgs = [] := by
-        cases hl : f.additionalArgs with
-        | nil => rfl
-        | cons a as => simp [hr, hs, hl] at h
-      simp [hr, hargs, joinSep]
-    · -- receiver, arg style: the destination is the first parameter
-      simp [hr, joinSep_cons_prefixed, param, String.append_assoc]
-
-/-- the full statement (every legal shape) -/
-def C08_header_full_statement : Prop := ∀ f : Function, sigHead f = specHead f
-
-/-- it is false of the code as it is: receiver + additional argument in return style -/
+/-- regression witness of the stray comma -/
 def witnessFn : Function :=
   { comments := [], name := "F", receiver := "r", src := ⟨"s", "S", false, false⟩, dst := ⟨"d", "D", false, false⟩,
-    additionalArgs := [⟨"a", "int", false, false⟩], retError := false, dstVarStyle := .ret, assignments := [],
-    preProcess := none, postProcess := none }
-example : strayComma witnessFn = true ∧ sigHead witnessFn = "func (r S) F(, a int) " ∧
-    specHead witnessFn = "func (r S) F(a int) " := by decide
+    additionalArgs := [⟨"a", "int", false, false⟩, ⟨"b", "string", true, false⟩], retError := false, dstVarStyle := .ret,
+    assignments := [], preProcess := none, postProcess := none }
+example : sigHead witnessFn = "func (r S) F(a int, b *string) " := by decide
+
+/-- parameters are never empty and never start with a separator -/
+theorem params_nonempty_items (f : Function) : ∀ p ∈ specParams f, p ≠ "" := by
+  intro p hp
+  unfold specParams at hp
+  simp only [List.mem_append, List.mem_map] at hp
+  have ne : ∀ (a b : String), a ++ " " ++ b ≠ "" := by
+    intro a b h
+    have := congrArg String.length h
+    simp [String.length_append] at this
+  rcases hp with (hp | hp) | ⟨a, _, hp⟩
+  · split at hp
+    · simp only [List.mem_singleton] at hp
+      subst hp
+      intro h
+      have := congrArg String.length h
+      simp [String.length_append] at this
+    · cases hp
+  · split at hp
+    · simp only [List.mem_singleton] at hp
+      subst hp; exact ne _ _
+    · cases hp
+  · subst hp; exact ne _ _
 
 /-- **results.** The result list and the opening of the body are the documented ones. -/
 theorem results_eq_spec (f : Function) :
@@ -126,7 +120,7 @@ def plainFn : Function :=
   { comments := [], name := "ToDst", receiver := "", src := ⟨"src", "S", true, false⟩, dst := ⟨"dst", "D", true, false⟩,
     additionalArgs := [⟨"n", "int", false, false⟩], retError := true, dstVarStyle := .arg, assignments := [],
     preProcess := none, postProcess := none }
-example : strayComma plainFn = false ∧ sigHead plainFn = "func ToDst(dst *D, src *S, n int) " ∧
+example : sigHead plainFn = "func ToDst(dst *D, src *S, n int) " ∧
     sigTail plainFn = "(err error) {\n" := by decide
 
 end Convergen.Props.C08
